@@ -20,6 +20,30 @@ def replay_file(path):
         bad = r.get("ok") and (not r.get("same_tree") or r.get("reparse_errors") or not r.get("idempotent"))
         print("REPRODUCED (the formatted text does not parse back to the same tree)" if bad else "NOT REPRODUCED (same tree after formatting now)")
         return 1 if bad else 0
+    if "prql" in a and "text" in a and art.get("property") == "C08" and "lexed" not in a:
+        # string-literal findings: compile with the current tree, execute on SQLite, compare the value with the text
+        import sqlite3
+        r = drv.compile(a["prql"], "sql.sqlite")
+        print("prql:\n" + a["prql"])
+        print("compiler now:", r.get("sql") or r.get("panic") or r.get("errors"))
+        if r.get("panic"):
+            print("REPRODUCED (panic)")
+            return 1
+        if not r.get("ok"):
+            print("NOT REPRODUCED (the program is rejected now)")
+            return 0
+        try:
+            con = sqlite3.connect(":memory:")
+            con.execute("create table t(a)")
+            con.execute("insert into t values (1)")
+            rows = con.execute(r["sql"]).fetchall()
+        except Exception as e:
+            print("SQLite error:", e, "\nREPRODUCED (the literal breaks the statement)")
+            return 1
+        print("SQLite returns:", rows, "expected:", [(a["text"],)])
+        bad = rows != [(a["text"],)]
+        print("REPRODUCED" if bad else "NOT REPRODUCED (the value arrives unchanged now)")
+        return 1 if bad else 0
     if "prql" in a:
         tgt = next((f.split(":", 1)[1] for f in a.get("features", []) if f.startswith("target:")), "sql.sqlite")
         r = drv.compile(a["prql"], tgt)
